@@ -902,7 +902,7 @@ def execute(case):
     r, _, _ = core.run_program({"main.ms": case["source"]}, cpu=10, tag="c13")
     if r.cls in ("wall_timeout", "spawn_error"):
         return {"inconclusive": "%s on %s" % (r.cls, case["id"])}
-    if "Did not compile successfully" in r.out + r.err and core.BANNER not in r.err:
+    if core.compile_rejected(r):
         return {"rejected": (r.out + r.err)[-500:], "source": case["source"]}
     dev = compare(case, r)
     out = {"failure_class": None}
